@@ -139,7 +139,16 @@ def fam_readloop(ctx):
     return {"must_report": ["ST.readloop|read_loop_total_bad"], "must_not_report": ["ST.readloop|read_loop_eof_ok"]}
 
 
-FAMILIES = {"readloop": fam_readloop, "lock": fam_lock, "gate": fam_gate, "publish": fam_publish, "taint": fam_taint, "panic": fam_panic, "loop": fam_loop, "slice": fam_slice}
+def fam_fold(ctx):
+    from .c19 import lost_accumulation
+    for i in ("fold_accumulate_ok", "fold_overwrite_bad"):
+        b = body(ctx, i)
+        hit = bool(lost_accumulation(b))
+        (ctx.bad if hit else ctx.ok)("ST.fold", [i], "accumulator overwritten in the loop" if hit else "combination reads its accumulator", b.loc())
+    return {"must_report": ["ST.fold|fold_overwrite_bad"], "must_not_report": ["ST.fold|fold_accumulate_ok"]}
+
+
+FAMILIES = {"fold": fam_fold, "readloop": fam_readloop, "lock": fam_lock, "gate": fam_gate, "publish": fam_publish, "taint": fam_taint, "panic": fam_panic, "loop": fam_loop, "slice": fam_slice}
 
 
 def for_families(names):
